@@ -8,20 +8,20 @@ TECH = {
  "C02": "runtime monitor on add_constraint_*_zero: before/after difference checked on full truth tables against an independent relation evaluator, over constraint histories",
  "C03": "same monitor as C02 on spin tables plus ancilla-name/num_ancillas history invariants",
  "C04": "runtime contracts on conversions/exports compared with an exact multilinear reference model (polynomial identity)",
- "C05": "lock-step differential monitor on every operator application of random expression programs against exact polynomial arithmetic",
+ "C05": "lock-step differential monitor on every operator application of random expression programs against exact polynomial arithmetic, with a repeated application after removal-only in-place edits",
  "C06": "runtime monitor on the sixteen logical constraint methods: truth-table oracle with an independent boolean evaluator",
  "C07": "runtime monitor on sat expression trees: Moebius transform of the tree's truth table versus the returned model (exact)",
  "C08": "end-to-end monitor: reference constrained optimum versus every arg-min row of the five produced forms mapped through the real convert_solution",
- "C09": "runtime contract on the brute-force solvers against independent enumeration, input snapshots",
+ "C09": "runtime contract on the brute-force solvers against independent enumeration, input snapshots, second solve of the same object after in-place edits",
  "C10": "runtime monitor on the seven problem classes against independent brute-force problem definitions and full QUBO/QUSO tables",
  "C11": "runtime contract on anneal_* results (well-formedness, value==model(state), best) over generated configurations",
  "C12": "determinism across processes + T=0 reference sweep + chi-square against the exact k-step Metropolis chain + in-kernel dE invariant (H2 hook)",
  "C13": "model-based history monitor: every AnnealResults operation mirrored on a plain-list shadow, invariant checked after each step",
  "C14": "history monitor: bookkeeping invariants at the client boundary after every edit, refresh exactness, label discipline of produced forms",
  "C15": "runtime contract on approximate_*_extrema and anneal_temperature_range against exact truth-table extrema, plus a second look after in-place edits of the same object",
- "C16": "differential monitor: symbolic build + subs versus numeric build, per constraint branch",
- "C17": "ASan+UBSan build of the working tree's C sources driven through the Python API in hostile call histories (per-call report attribution), boundary precondition contract on c_anneal_*, in-kernel bounds assertions (H2), libFuzzer+ASan+UBSan harness on the kernels with in-harness oracles, leak probe, valgrind memcheck subset (thorough), canaries",
- "C18": "runtime contracts on subvalue/subgraph/normalize against exact substitution in the reference model",
+ "C16": "differential monitor: symbolic build + subs versus numeric build, per constraint branch, continued through a second round (update / further constraint, subs again)",
+ "C17": "ASan+UBSan build of the working tree's C sources driven through the Python API in hostile call histories (per-call report attribution), boundary precondition contract on c_anneal_*, in-kernel bounds assertions (H2), libFuzzer+ASan+UBSan harness on the kernels with in-harness oracles, leak probe, threads probe (seeded calls from 4 threads compared with the serial results), second kernel call on the same object after clear()/refresh()+growth, valgrind memcheck subset (thorough), canaries",
+ "C18": "runtime contracts on subvalue/subgraph/normalize against exact substitution in the reference model, repeated on the same object after in-place edits",
  "C19": "deep-snapshot argument-immutability and aliasing monitor attached to the API while all other workloads run; info round-trip contract",
 }
 LEVEL_TEXT = ("Runtime monitoring: the real code is executed on generated, hostile inputs/histories while an oracle "
